@@ -19,6 +19,8 @@ pub struct StreamState {
 	pub pushed: u64,
 	pub loops: u64,
 	pub full: bool,
+	/// round (callback count) in which `full` / `parked` was last reported
+	pub seen_round: u64,
 	/// remaining decoder steps (None = unlimited)
 	pub budget: Option<u64>,
 	/// the thread is parked because its budget is exhausted
@@ -38,6 +40,9 @@ static REG: Mutex<Option<HashMap<usize, StreamState>>> = Mutex::new(None);
 static INSTALL: Once = Once::new();
 
 static EPOCH: AtomicU64 = AtomicU64::new(1);
+/// incremented whenever a callback ends: a decoder is quiescent only if it reported a full ring
+/// (or an exhausted budget) after the last callback ended
+static ROUND: AtomicU64 = AtomicU64::new(1);
 
 fn thread_hash() -> u64 {
 	use std::hash::{Hash, Hasher};
@@ -83,6 +88,7 @@ pub fn install() {
 						match st.budget {
 							Some(0) => {
 								st.parked = true;
+								st.seen_round = ROUND.load(Ordering::SeqCst);
 								true
 							}
 							_ => {
@@ -115,7 +121,9 @@ pub fn install() {
 				st.full = false;
 			}),
 			"decode_wait" => with_reg(|r| {
-				entry(r, id).full = true;
+				let st = entry(r, id);
+				st.full = true;
+				st.seen_round = ROUND.load(Ordering::SeqCst);
 			}),
 			_ => {}
 		})));
@@ -123,6 +131,9 @@ pub fn install() {
 }
 
 pub fn set_callback_active(active: bool) {
+	if !active {
+		ROUND.fetch_add(1, Ordering::SeqCst);
+	}
 	CALLBACK_ACTIVE.store(active, Ordering::SeqCst);
 }
 
@@ -133,6 +144,15 @@ pub fn state(id: usize) -> StreamState {
 pub fn set_budget(id: usize, budget: Option<u64>) {
 	with_reg(|r| r.entry(id).or_default().budget = budget);
 	// (called by the harness thread: the entry keeps the decoder thread's identity)
+}
+
+/// Called by the harness right after a streaming sound has been created: an entry left behind by
+/// an earlier decoder thread with the same id (ids are addresses and get reused) is discarded.
+/// If the new thread has already checked in, it re-establishes its state with its next hook call.
+pub fn adopt(id: usize) {
+	with_reg(|r| {
+		r.remove(&id);
+	});
 }
 
 pub fn forget(id: usize) {
@@ -166,7 +186,7 @@ pub fn wait_quiescent(streams: &[(usize, Arc<DecoderLog>)], timeout: Duration) -
 				return true;
 			}
 			let st = state(*id);
-			st.full || st.parked
+			(st.full || st.parked) && st.seen_round == ROUND.load(Ordering::SeqCst)
 		});
 		if all {
 			return true;
